@@ -26,11 +26,12 @@ fn files_of(p: &Program, layout: &Layout) -> Vec<String> {
 }
 
 pub fn place_doc(pos: usize, lines: &[String], sibling_doc: bool) -> Program {
-    let d = |c: MCommon| -> MCommon {
-        let mut c = c;
-        c.doc.lines = lines.to_vec();
-        c
-    };
+    place_docs(&[(pos, lines)], sibling_doc)
+}
+
+/// The same universe with several documented elements (position, lines).
+pub fn place_docs(docs: &[(usize, &[String])], sibling_doc: bool) -> Program {
+    let pos = docs[0].0;
     let i32t = || MType::prim("int32");
     let mut outer = MFile::module("Outer");
     outer.defs.push(st("OS", vec![MField::new("of", i32t())]));
@@ -52,19 +53,26 @@ pub fn place_doc(pos: usize, lines: &[String], sibling_doc: bool) -> Program {
     let mut e = MEnum { c: MCommon::new("DE"), compact: false, unchecked: false, underlying: None, enumerators: vec![MEnumerator { c: MCommon::new("DA"), fields: Some(vec![MField::new("df", i32t())]), value: None }, enumerator("DB")] };
     let mut cu = MCustom { c: MCommon::new("DC") };
     let mut al = MAlias { c: MCommon::new("DT"), ty: i32t() };
-    match pos {
-        0 => s.c = d(s.c),
-        1 => s.fields[0].c = d(s.fields[0].c.clone()),
-        2 => it.c = d(it.c),
-        3 => o.c = d(o.c),
-        4 => e.c = d(e.c),
-        5 => e.enumerators[0].c = d(e.enumerators[0].c.clone()),
-        6 => e.enumerators[0].fields.as_mut().unwrap()[0].c = d(e.enumerators[0].fields.as_ref().unwrap()[0].c.clone()),
-        7 => cu.c = d(cu.c),
-        8 => al.c = d(al.c),
-        9 => o1.c = d(o1.c),
-        10 => o0.c = d(o0.c),
-        _ => unreachable!(),
+    for (pos, lines) in docs {
+        let d = |c: MCommon| -> MCommon {
+            let mut c = c;
+            c.doc.lines = lines.to_vec();
+            c
+        };
+        match pos {
+            0 => s.c = d(s.c.clone()),
+            1 => s.fields[0].c = d(s.fields[0].c.clone()),
+            2 => it.c = d(it.c.clone()),
+            3 => o.c = d(o.c.clone()),
+            4 => e.c = d(e.c.clone()),
+            5 => e.enumerators[0].c = d(e.enumerators[0].c.clone()),
+            6 => e.enumerators[0].fields.as_mut().unwrap()[0].c = d(e.enumerators[0].fields.as_ref().unwrap()[0].c.clone()),
+            7 => cu.c = d(cu.c.clone()),
+            8 => al.c = d(al.c.clone()),
+            9 => o1.c = d(o1.c.clone()),
+            10 => o0.c = d(o0.c.clone()),
+            _ => unreachable!(),
+        }
     }
     if sibling_doc {
         // a healthy comment on a sibling: must stay intact whatever happens to the other one
@@ -222,7 +230,16 @@ pub fn check_doc_program(program: &Program, layout: &Layout, fam: &str, out: &mu
 // ---------------------------------------------------------------------------------------------------------------
 
 const INDENTS: [&str; 6] = ["", " ", "  ", "\t", "\u{3000}", "\u{a0}"];
-const CONTENTS: [&str; 4] = ["text here", "{@link IS} tail", "mid {@link IS::f} tail", "end {@link OS}"];
+const CONTENTS: [&str; 7] = [
+    "text here",
+    "{@link IS} tail",
+    "mid {@link IS::f} tail",
+    "end {@link OS}",
+    // braces that do not start an inline tag, an '@' that does not start a tag
+    "a set { a, b } of {@link IS} x}",
+    "{0} then {{ and {link IS} a@b",
+    "{ spaced {  @ not a tag",
+];
 
 fn line_alphabet() -> Vec<String> {
     let mut v = vec![String::new(), "  ".to_string(), "\u{3000}".to_string()];
@@ -263,7 +280,7 @@ impl Overviews {
 }
 impl Family for Overviews {
     fn name(&self) -> String {
-        format!("overview-lines/all sequences of 1..{} lines over {} line forms (6 indentations x 4 contents, blank, whitespace-only), position rotates", self.max_lines, self.alphabet.len())
+        format!("overview-lines/all sequences of 1..{} lines over {} line forms (6 indentations x 7 contents incl. braces and at-signs that start no tag, blank, whitespace-only), position rotates", self.max_lines, self.alphabet.len())
     }
     fn len(&self) -> u64 {
         let a = self.alphabet.len() as u64;
@@ -489,6 +506,57 @@ impl LinkTargets {
     }
 }
 
+
+/// Two documented elements that write the SAME link: each must be bound from its own element outwards.
+pub struct LinkPairs;
+impl LinkPairs {
+    fn decode(idx: u64) -> (&'static str, usize, usize, u64) {
+        let how = idx % 3;
+        let pair = (idx / 3) % 110;
+        let (p1, mut p2) = ((pair / 10) as usize, (pair % 10) as usize);
+        if p2 >= p1 {
+            p2 += 1;
+        }
+        let ti = (idx / 330) as usize;
+        let t = if ti < TARGETS.len() { TARGETS[ti] } else { OWN[ti - TARGETS.len()] };
+        (t, p1, p2, how)
+    }
+    fn lines(t: &str, how: u64) -> Vec<String> {
+        match how {
+            0 => vec![format!(" See {{@link {t}}} for more.")],
+            1 => vec![" Overview.".into(), format!(" @see {t}")],
+            _ => vec![format!(" @param a: uses {{@link {t}}}")],
+        }
+    }
+}
+impl Family for LinkPairs {
+    fn name(&self) -> String {
+        "link-pairs/the same written target (32 targets) in the comments of TWO elements: all 110 ordered pairs of the 11 positions x {inline link, @see, link in @param message}".into()
+    }
+    fn len(&self) -> u64 {
+        (TARGETS.len() + OWN.len()) as u64 * 110 * 3
+    }
+    fn describe(&self, idx: u64) -> Value {
+        let (t, p1, p2, how) = Self::decode(idx);
+        let lines = Self::lines(t, how);
+        let p = place_docs(&[(p1, &lines), (p2, &lines)], false);
+        json!({"target": t, "positions": [p1, p2], "how": how, "files": files_of(&p, &Layout::uniform(Sep::Space, Commas::None))})
+    }
+    fn run(&self, idx: u64) -> CaseOut {
+        let (t, p1, p2, how) = Self::decode(idx);
+        let lines = Self::lines(t, how);
+        let p = place_docs(&[(p1, &lines), (p2, &lines)], false);
+        let mut out = CaseOut::new(hash_str(&format!("lp{t}{p1}{p2}{how}")));
+        out.steps = 0;
+        out.validated = 1;
+        out.nontrivial = true;
+        // (a @param tag on an enumerator is not judged: see LinkTargets)
+        let skip = (p1 == 5 || p2 == 5) && how == 2;
+        out.class = check_doc_program(&p, &Layout::uniform(Sep::Space, Commas::None), "link-pairs", &mut out, skip);
+        out
+    }
+}
+
 /// The malformed catalogue, alone and next to a healthy sibling comment.
 pub struct Malformed;
 const BAD: [&[&str]; 16] = [
@@ -535,5 +603,5 @@ impl Family for Malformed {
 }
 
 pub fn families(tier: &str) -> Vec<Box<dyn Family>> {
-    vec![Box::new(Malformed), Box::new(LinkTargets), Box::new(Tags::new()), Box::new(TagLayouts::new()), Box::new(Overviews::new(if tier == "quick" { 3 } else { 4 }))]
+    vec![Box::new(Malformed), Box::new(LinkTargets), Box::new(Tags::new()), Box::new(TagLayouts::new()), Box::new(Overviews::new(if tier == "quick" { 3 } else { 4 })), Box::new(LinkPairs)]
 }
